@@ -26,6 +26,7 @@ from ..pool import gen_traj_data
 
 ANSWERS_DECLINE = ["n", "", "Y", "yes", "y ", " y", "no", "q", "1", "yy"]
 _EVO = None
+FIG_IN = "work/figs.pkl"  # evo_fig's input (and, on request, its output)
 
 
 def evo_ns():
@@ -36,11 +37,13 @@ def evo_ns():
         import matplotlib
         matplotlib.use("Agg")
         from evo import main_traj, main_res, main_config, entry_points
+        from evo import main_fig
         from evo import main_ape_parser, main_rpe_parser, main_traj_parser
         from evo import main_res_parser
         from evo.tools import settings
         ns.main_traj, ns.main_res, ns.main_config = main_traj, main_res, main_config
         ns.entry_points = entry_points
+        ns.main_fig = main_fig
         ns.parsers = {"ape": main_ape_parser, "rpe": main_rpe_parser,
                       "traj": main_traj_parser, "res": main_res_parser}
         ns.mains = {"ape": ns.main_ape, "rpe": ns.main_rpe, "traj": main_traj,
@@ -96,6 +99,19 @@ class RunData:
         fi.save_res_file("in/r3.zip", self.results[2])
         with open("in/nw.json", "w") as f:
             json.dump({"no_warnings": True}, f)
+        # a serialized PlotCollection for evo_fig; it is NOT under in/ because
+        # evo_fig offers to overwrite it (after a question of its own)
+        import matplotlib.pyplot as plt
+        os.makedirs("work", exist_ok=True)
+        pc = evo.plot.PlotCollection("t")
+        for name in ("a", "b"):
+            fig = plt.figure(figsize=(1.5, 1.5))
+            fig.gca().plot([0, 1], [0, 1])
+            pc.add_figure(name, fig)
+        try:
+            pc.serialize(FIG_IN, confirm_overwrite=False)
+        finally:
+            pc.close()
 
 
 def valid_for(evo, op, rel, data: bytes):
@@ -249,6 +265,16 @@ def _expected_outputs(op):
                 globs.append(f"{base}_*{ext}")
         if o.get("serialize_plot"):
             exact.append(o["serialize_plot"])
+    elif k == "cli_fig":
+        # evo_fig re-serializes first, then exports the figures "a" and "b"
+        if o.get("serialize_plot"):
+            exact.append(o["serialize_plot"])
+        if o.get("save_plot"):
+            base, ext = os.path.splitext(o["save_plot"])
+            if ext == ".pdf" and not op.get("plot_split"):
+                exact.append(o["save_plot"])
+            else:
+                exact += [f"{base}_{n}{ext}" for n in ("a", "b")]
     return exact, globs
 
 
@@ -287,6 +313,16 @@ def warnings_on(op):
 def cli_argv(op):
     k = op["kind"]
     o = op["opts"]
+    if k == "cli_fig":
+        argv = [FIG_IN]
+        for key in ("serialize_plot", "save_plot"):
+            if o.get(key):
+                argv += ["--" + key, o[key]]
+        if op.get("title"):
+            argv += ["--title", op["title"]]
+        if op.get("no_warnings"):
+            argv.append("--no_warnings")
+        return argv
     if k in ("cli_ape", "cli_rpe"):
         fmt = op.get("fmt", "tum")
         argv = [fmt, f"in/ref.{'txt' if fmt == 'tum' else 'kitti'}",
@@ -363,14 +399,16 @@ class C17(Check):
         "(stands in for 'each command is its own process'); module state of "
         "evo deliberately persists across the operations of one history",
         "not covered: --logfile (appends), evo_traj --save_as_bag* "
-        "(timestamped names), evo_fig, in-place evo_config set -c file",
+        "(timestamped names), evo_fig --to_html (mpld3 is not installed), "
+        "in-place evo_config set -c file",
     ]
     components = {
         "real": [
             "evo/tools/user.py", "evo/tools/file_interface.py",
             "evo/tools/pandas_bridge.py", "evo/tools/plot.py (Agg)",
             "evo/main_ape.py", "evo/main_rpe.py", "evo/main_traj.py",
-            "evo/main_res.py", "evo/main_config.py", "evo/common_ape_rpe.py",
+            "evo/main_res.py", "evo/main_config.py", "evo/main_fig.py",
+            "evo/common_ape_rpe.py",
             "evo/entry_points.py:merge_config", "the four argparse parsers",
             "numpy / pandas / matplotlib / zipfile / pickle writers",
             "tmpfs"
@@ -407,7 +445,7 @@ class C17(Check):
     # ----------------------------------------------------------- generation
     SINKS = ["lib_tum", "lib_kitti", "lib_res", "lib_table", "lib_export",
              "lib_serialize", "cli_ape", "cli_rpe", "cli_traj", "cli_res",
-             "cli_generate"]
+             "cli_generate", "cli_fig"]
 
     def gen_op(self, rng, kind=None, exists=None, answer=None, warn=None,
                as_path=None):
@@ -503,6 +541,20 @@ class C17(Check):
                 inputs = rng.choice([["in/r1.zip", "in/r3.zip"],
                                      ["in/r3.zip", "in/r1.zip", "in/r2.zip"]])
             op.update(opts=o, inputs=inputs, plot_split=False)
+        elif kind == "cli_fig":
+            o = {}
+            r = rng.random()
+            if r < 0.55:
+                o["serialize_plot"] = sub + rng.choice(["plots.pkl",
+                                                        "figs2.pkl"])
+            if r > 0.3:
+                o["save_plot"] = sub + "plot" + rng.choice([".pdf", ".png",
+                                                            ".svg", ".pdf"])
+            if rng.random() < 0.12:
+                o = {}  # only looks at the file (and offers to rewrite it)
+            op.update(opts=o, plot_split=rng.random() < 0.3)
+            if rng.random() < 0.3:
+                op["title"] = rng.choice(["my plots", "t"])
         elif kind == "cli_generate":
             op.update(path=sub + rng.choice(["cfg.json", "gen.json"]),
                       argv=rng.choice([["--align", "--plot_mode", "xz"],
@@ -539,11 +591,11 @@ class C17(Check):
         elif kind != "cli_generate":
             w = (rng.random() < 0.75) if warn is None else warn
             if not w:
-                if rng.random() < 0.5:
-                    op["no_warnings"] = True
+                if rng.random() < 0.5 or kind == "cli_fig":
+                    op["no_warnings"] = True  # evo_fig has no -c option
                 else:
                     op["no_warnings_via_config"] = True
-        if kind.startswith("cli_") and kind != "cli_generate":
+        if kind.startswith("cli_") and kind not in ("cli_generate", "cli_fig"):
             st = {}
             if rng.random() < 0.3:
                 st["save_traj_in_zip"] = True
@@ -560,7 +612,8 @@ class C17(Check):
                                                                 "km"])
             if st:
                 op["settings"] = st
-        if kind.startswith("cli_") and kind != "cli_generate" and (
+        if kind.startswith("cli_") and kind not in ("cli_generate",
+                                                    "cli_fig") and (
                 rng.random() < 0.15):
             # some output options come from a -c config file instead
             keys = [k for k in ("save_plot", "serialize_plot", "save_results",
@@ -774,6 +827,15 @@ class C17(Check):
                     op["argv"]) + ["-o", out_path]
                 try:
                     evo.main_config.main()
+                finally:
+                    sys.argv = old
+            return f
+        if k == "cli_fig":
+            def f():
+                old = sys.argv
+                sys.argv = ["evo_fig"] + cli_argv(op)
+                try:
+                    evo.main_fig.main()
                 finally:
                     sys.argv = old
             return f
@@ -1085,6 +1147,13 @@ class C17(Check):
             if e[0] == "warn":
                 last_warn = e[1]
             elif e[0] == "prompt":
+                if op["kind"] == "cli_fig" and last_warn is None and (
+                        "overwrite original file" in str(e[1])):
+                    # evo_fig's closing question names the file it is about
+                    # itself: the plot collection that was opened
+                    last_warn = FIG_IN
+                    res.stats["probe.evo_fig_rewrite_question_" + (
+                        "y" if e[2] == "y" else "other")] += 1
                 prompts.append((i, last_warn, e[2]))
                 last_warn = None
                 a = e[2]
